@@ -35,6 +35,9 @@ CHECKS = {
  "C10": dict(level="model_checking", sec="3/C10", technique="exhaustive enumeration of small IL functions x initial states; definitional SSA validity checks plus lock-step explicit-state product of the original and its SSA form (parallel phi semantics)",
    text="Same program space as C12 (loops through the entry, self-loops, unreachable blocks included); static: structure kept, single assignment, phi operands per predecessor, uses dominated by definitions (dominance by deletion); dynamic: lock-step product from every initial valuation with version-keyed scalars: same path, same values, no read of an unwritten version. Larger programs are not covered.",
    note="Trusted: refil reference semantics incl. phi execution; declared intrinsic writes are havocked identically on both sides."),
+ "C17": dict(level="model_checking", sec="3/C17", technique="exhaustive enumeration of small IL functions over each architecture's stack pointer plus lifted prologue/epilogue snippets; explicit-state product of every concrete execution with the reported offsets",
+   text="For all 7 architectures: every entry-without-incoming-edge function on <=2 blocks with <=3 instructions (3 blocks <=2) from a 13-operation stack-pointer alphabet (constant moves, masking, xor, constants, other registers, loads, stores) and lifted snippets; whenever Value(o) is reported after a location the concrete sp must equal entry sp + o (mod 2^w) on every execution from 8 initial states. Runs are cut at 48 steps.",
+   note="Trusted: refil reference semantics. Offsets compared modulo the pointer width."),
 }
 NA = []
 def main():
